@@ -115,8 +115,8 @@ Definition run_dep (op : string) (a : list str) : option str :=
     (* dependency.ParseArchitectures: split on single blanks, trim " \t\n\r", skip empty items *)
     (let els := filter (fun x => negb (D3.seq x []))
                (map (CX.trim_set [" "%char; ascii_of_nat 9; ascii_of_nat 10; ascii_of_nat 13]) (GS.split " "%char (g 0))) in
-     Some (if forallb A1.arch_ok els
-           then lit "ok " ++ show_list (fun x => lit "( " ++ show_arch (A1.parse_arch x) ++ lit " )") els
+     Some (if forallb (fun x => match A1.parse_arch_opt x with Some _ => true | None => false end) els
+           then lit "ok " ++ show_list (fun x => lit "( " ++ match A1.parse_arch_opt x with Some a => show_arch a | None => [] end ++ lit " )") els
            else lit "err"))
   else if op =? "astring" then Some (hx (A1.arch_string (A1.mk (g 0) (g 1) (g 2))))
   else if op =? "art" then
